@@ -324,7 +324,12 @@ class MessagePackRpc(MessagePackDocument):
             ctx.in_error = Fault(**ctx.in_error)
 
         elif body_class:
-            ctx.in_object = self._doc_to_object(ctx,
+            if ctx.in_body_doc is None:
+                # [type, id, method, nil]: every argument is absent
+                ctx.in_object = [None] * len(body_class._type_info)
+
+            else:
+                ctx.in_object = self._doc_to_object(ctx,
                                     body_class, ctx.in_body_doc, self.validator)
 
         else:
